@@ -145,8 +145,10 @@ class Latency:
         at regular intervals to measure and track latency statistics.
         """
         if self._ping_thread_instance is None or not self._ping_thread_instance.is_alive():
-            self._stop_event.clear()
-            self._ping_thread_instance = Thread(target=self._ping_thread)
+            # Each ping thread gets its own stop event so that a thread that has been
+            # stopped but has not exited yet can not be revived by the next start()
+            self._stop_event = Event()
+            self._ping_thread_instance = Thread(target=self._ping_thread, args=(self._stop_event,))
             self._ping_thread_instance.start()
 
     def stop(self):
@@ -157,11 +159,9 @@ class Latency:
         ping requests, halting latency measurement.
         """
         self._stop_event.set()
-        if self._ping_thread_instance is not None:
-            self._ping_thread_instance.join()
-            self._ping_thread_instance = None
+        self._ping_thread_instance = None
 
-    def _ping_thread(self, interval: float = 0.1) -> None:
+    def _ping_thread(self, stop_event, interval: float = 0.1) -> None:
         """
         Background thread method that sends a ping to the Crazyflie at regular intervals.
 
@@ -171,7 +171,7 @@ class Latency:
         Args:
             interval (float): The time (in seconds) to wait between ping requests. Default is 0.1 seconds.
         """
-        while not self._stop_event.is_set():
+        while not stop_event.is_set():
             self.ping()
             time.sleep(interval)
 
